@@ -53,8 +53,8 @@ contract(f"{A}::MABEpsilonGreedy.reset", params={}, props=["C19"],
          ensures=["forall(range(0, self.n_actions), lambda b: self.Q[b] == 0 and self.actions_count[b] == 0)"],
          modifies=["self.Q", "self.actions_count"])
 
-klass("CalibrationEnv", fields={"_nb_samplers": "int", "_curr_best_loss": "opt[real]", "_out_queue": "opaque:Queue",
-                                "_in_queue": "opaque:Queue", "action_space": "opaque:Discrete"})
+klass("CalibrationEnv", fields={"_nb_samplers": "int", "_curr_best_loss": "opt[real]", "_out_queue": "opaque:QueueActions",
+                                "_in_queue": "opaque:QueueOutcomes", "action_space": "opaque:Discrete"})
 
 contract(f"{E}::MABCalibrationEnv.get_reward", params={"best_param": "any", "best_loss": "real"}, returns="real",
          props=["C19"],
